@@ -646,6 +646,114 @@ def coq_tie(rep, o, seed):
     return False, n
 
 
+# ---------------------------------------------------------------- closers (extension round 2)
+def closers_stage(rep, hbin, tier, seed):
+    """Properties/C20Closers.v + the multipath stage: descriptors over String keys translated into DescriptorPublicKeys with
+    multipath keys of different lengths (engine translate-mp, exhaustive over 9 target kinds per placeholder)."""
+    thms, blocks, problems, _ = vlib.check_property_file("C20Closers")
+    if problems:
+        rep.violation("property-file", "; ".join(problems),
+                      {"property": PID, "broken_tie": "Properties/C20Closers.v", "problems": problems}, found_input=False)
+    p = vlib.sh([hbin, "translate-mp", str(seed)], env={"VERIF_TIER": tier}, timeout=600)
+    if p.returncode != 0:
+        raise RuntimeError("translate-mp engine failed: " + p.stderr[-2000:])
+    hist, obs, samples, bad, n = {}, {}, [], 0, 0
+    for line in p.stdout.splitlines():
+        if line.startswith("MPBAD"):
+            bad += 1
+            rep.violation("mp:engine", line, {"property": PID, "broken_tie": "translate-mp corpus"}, found_input=False)
+            continue
+        if not line.startswith("MP "):
+            continue
+        n += 1
+        desc, kinds, res, cause, reparse, mism = [x.strip() for x in line[3:].split(" | ")]
+        res, cause, reparse, mism = res[4:], cause[6:], reparse[8:], mism[9:]
+        kl = kinds.split(",")
+        robj = {"property": PID, "stage": "multipath", "descriptor": desc, "target_kinds": kinds, "line": line}
+        cls = res.split(" ")[0].split(":")[0]
+        hist[cls] = hist.get(cls, 0) + 1
+        if cls == "panic":
+            bad += 1
+            rep.violation("mp:panic", "translate_pk panics: %s with %s" % (desc, kinds), robj, True)
+        elif cls == "terr":
+            # a translator error must be caused by an unmapped key of the descriptor
+            if "unmapped" not in cause:
+                bad += 1
+                rep.violation("mp:fail-without-cause", "TranslatorErr although every key is mapped: %s with %s" % (desc, kinds), robj, True)
+        elif cls == "outer":
+            # an outer error must be caused by a mapped key the context forbids: a key kind (uncompressed / x-only), or - tr only on
+            # this tree, through Tr::new's per-leaf top-level checks - multipath keys of different lengths inside one script
+            if "illegal" in cause:
+                pass
+            elif mism == "same-script" and "MultipathDescLenMismatch" in res:
+                obs["outer_error_multipath_mismatch_in_one_script"] = obs.get("outer_error_multipath_mismatch_in_one_script", 0) + 1
+                obs.setdefault("outer_error_multipath_example", "%s with %s -> %s" % (desc, kinds, res))
+            else:
+                bad += 1
+                rep.violation("mp:fail-without-cause", "OuterError %s without an illegal mapped key: %s with %s" % (res, desc, kinds), robj, True)
+        else:
+            # accepted: the printed result must be an object the descriptor parser accepts, equal to the result
+            dup = len(set(kl)) < len(kl)
+            if reparse == "ok":
+                hist["ok_reparse_equal"] = hist.get("ok_reparse_equal", 0) + 1
+                if mism == "across-tr":
+                    obs["accepted_and_parseable_with_lengths_differing_across_tr_leaves_or_internal_key"] = \
+                        obs.get("accepted_and_parseable_with_lengths_differing_across_tr_leaves_or_internal_key", 0) + 1
+                if "illegal" in cause or "unmapped" in cause:
+                    bad += 1
+                    rep.violation("mp:ok-despite-cause", "accepted although %s: %s with %s" % (cause, desc, kinds), robj, True)
+            elif mism == "same-script" and "MultipathDescLenMismatch" in reparse:
+                obs["accepted_but_own_parser_rejects_multipath_mismatch"] = obs.get("accepted_but_own_parser_rejects_multipath_mismatch", 0) + 1
+                obs.setdefault("accepted_unparseable_example", "%s with %s -> %s, reparse %s" % (desc, kinds, res, reparse))
+            elif dup and "DuplicateKeys" in reparse:
+                obs["accepted_non_injective_assignment_parser_rejects_duplicate_keys"] = \
+                    obs.get("accepted_non_injective_assignment_parser_rejects_duplicate_keys", 0) + 1
+            else:
+                bad += 1
+                rep.violation("mp:accepted-not-parseable", "translated descriptor is not accepted by Descriptor::from_str (%s): %s with %s"
+                              % (reparse, desc, kinds), robj, True)
+        if len(samples) < 5 and n % 397 == 1:
+            samples.append(line[:220])
+    if n < 1000 or hist.get("ok_reparse_equal", 0) < 100 or hist.get("terr", 0) < 100 or hist.get("outer", 0) < 100:
+        bad += 1
+        rep.violation("mp:vacuous", "multipath stage too small: %d cases %s" % (n, hist), {"property": PID, "broken_tie": "translate-mp"}, found_input=False)
+    # ---- tie: the observed result classes against translate_desc_mp (Ms/TranslateMpModel.v), inside Coq
+    mpc = re.findall(r"^MPC (\d+) ([\d,]+) (\d+)$", p.stdout, flags=re.M)
+    tie_ok, diffs = True, ""
+    if len(mpc) != n:
+        tie_ok = False
+        rep.violation("tie:translate-mp", "engine printed %d MPC lines for %d cases" % (len(mpc), n),
+                      {"property": PID, "broken_tie": "translate-mp output"}, found_input=False)
+    else:
+        rows = ["(%s, [%s], %s)" % (i, ks.replace(",", "; "), c) for i, ks, c in mpc]
+        chunks = [rows[i:i + 1500] for i in range(0, len(rows), 1500)]
+        gen = ["From Coq Require Import List NArith.", "Import ListNotations.", "Local Open Scope N_scope."]
+        for ci, ch in enumerate(chunks):
+            gen.append("Definition mp_cases_%d : list (N * list N * N) := [\n  %s ]." % (ci, ";\n  ".join(ch)))
+        gen.append("Definition mp_cases : list (N * list N * N) := %s." % " ++ ".join("mp_cases_%d" % ci for ci in range(len(chunks))))
+        open(os.path.join(vlib.COQ, "Tables", "TranslateMpCasesGen.v"), "w").write("\n".join(gen) + "\n")
+        for fcoq in ("Tables/TranslateMpCasesDefs.v", "Tables/TranslateMpCasesGen.v"):
+            c0 = vlib.coqc(fcoq)
+            if c0.returncode != 0:
+                raise RuntimeError("%s does not compile: %s" % (fcoq, (c0.stderr or c0.stdout)[-1500:]))
+        c1 = vlib.coqc("Tables/TranslateMpCasesCheck.v")
+        if c1.returncode != 0:
+            tie_ok = False
+            c2 = vlib.coqc("Tables/TranslateMpCasesDiag.v")
+            diffs = (c2.stdout or c2.stderr)[-3000:]
+            rep.violation("tie:translate-mp", "Descriptor::translate_pk with multipath / illegal / unmapped target keys differs from the model "
+                          "translate_desc_mp (descriptor index, kinds, observed class, model class): " + re.sub(r"\s+", " ", diffs)[:1200],
+                          {"property": PID, "broken_tie": "mp_cases_match_model (Tables/TranslateMpCasesCheck.v)", "differences": diffs,
+                           "stage": "multipath"}, found_input=(bad > 0))
+    if not tie_ok:
+        bad += 1
+    cov = {"multipath_cases_compared_in_coq": len(mpc) if tie_ok else 0,
+           "theorems_closers": thms,
+           "print_assumptions_closers": [("closed" if b["closed"] else ",".join(b["axioms"])) for b in blocks],
+           "multipath_stage": {"cases": n, "results": dict(sorted(hist.items())), "observations_not_violations": obs, "samples": samples}}
+    return cov, len(thms) + 1, (len(thms) if not problems else 0) + (1 if bad == 0 else 0), n
+
+
 def run(rep, tier, seed, replay):
     hbin = vlib.build_harness()
     ok, thms = vlib.proof_gates(rep, PID)
@@ -718,3 +826,8 @@ def run(rep, tier, seed, replay):
         "ext.pk_cost equals the length of the encoded script (C09's subject): the model's script-size re-check uses the encoder's length; "
         "a size failure is accepted by the oracle iff the byte-level substituted script exceeds the context's limit; the recursion-depth limit is not reached",
         "the byte-level script check is skipped for values containing sortedmulti (the key order may legitimately change)"]
+    ccov, cob, cdis, cn = closers_stage(rep, hbin, tier, seed)
+    rep.coverage["obligations"] += cob
+    rep.coverage["discharged"] += cdis
+    rep.coverage["evaluations"] += cn
+    rep.coverage.update(ccov)
